@@ -68,10 +68,14 @@ DG = {
     "BADMAGIC": b"3B" + hstrp(T_CONNECT, 0)[2:],
     "UNKOPT": hstrp(T_OPT, 1, bytes([0x0A, 0x01, 0x00]), rrs(0x03, IP_A)),
     "UNKSVC": hstrp(T_OPT, 1, OPTS, hdap(0x7F, [0, 1], b"\x00")),
+    # services the HDAP layer names but does not implement (TP 0x12, DDS 0x14) and a zero service byte: not decodable, not answered
+    "SVC_TP": hstrp(T_OPT, 1, OPTS, hdap(0x12, [0, 1], b"\x00\x01")),
+    "SVC_DDS": hstrp(0x00, 2, b"", hdap(0x14, [0, 1], b"\x00")),
+    "SVC_ZERO": hstrp(T_OPT, 1, OPTS, b"\x00" + hdap(0x11, [0, 3], IP_A)[1:]),
 }
 ACK_BEARING = {"CONNECT_ACK", "CLOSE_ACK", "ACK", "ACK_OPT"}
 DATA = {"REG_A", "REG_B", "OFF_A", "OFF_B", "STATUS_A", "RCP_NOOPT", "RCP_OPT", "REG_A_SNFFFF"}
-MALFORMED = {"TRUNC5", "TRUNC_PAYLOAD", "BADMAGIC", "UNKOPT", "UNKSVC"}
+MALFORMED = {"TRUNC5", "TRUNC_PAYLOAD", "BADMAGIC", "UNKOPT", "UNKSVC", "SVC_TP", "SVC_DDS", "SVC_ZERO"}
 REG_IP = {"REG_A": IP_A, "REG_B": IP_B, "REG_A_SNFFFF": IP_A}
 OFF_IP = {"OFF_A": IP_A, "OFF_B": IP_B}
 
@@ -203,12 +207,13 @@ def registry_view(impl):
 # 1. single handler
 # ------------------------------------------------------------------------------------------------
 class Single(explore.System):
-    INITS = [(sn, c) for sn in (0, 0xFFFD, 0xFFFE) for c in (False, True)]
+    INITS = [(sn, c, act) for sn in (0, 0xFFFD, 0xFFFE) for c in (False, True) for act in (False, True)]
     KINDS = list(DG)
 
     def __init__(self, init):
-        sn, connected = init
-        self.impl = RRSDatagramProtocol(port=30001)
+        sn, connected = init[0], init[1]
+        active = init[2] if len(init) > 2 else False
+        self.impl = RRSDatagramProtocol(port=30001, be_active_peer=active)
         self.tr = RecDatagramTransport()
         self.impl.connection_made(self.tr)
         self.impl.sn = sn
@@ -428,7 +433,7 @@ def w_malformed(task):
     pre_name, lo, hi = task
     acc = Acc()
     variants = VARIANTS[lo:hi]
-    base = Single((0, False))
+    base = Single((0, False, False))
     for k in PRE_STATES[pre_name]:
         base.step(k)
     for kind, how, n, data in variants:
@@ -527,7 +532,7 @@ def replay(doc):
     bad = 0
     for c in doc.get("cases", []):
         if doc["check"] == "malformed_depth1":
-            s = Single((0, False))
+            s = Single((0, False, False))
             for k in PRE_STATES[c["state"]]:
                 s.step(k)
             try:
